@@ -41,7 +41,8 @@ RelayBeh == [cap : BOOLEAN, ackAt : Times, nack : BOOLEAN]
 \*            tcp ("off" | "fail" | "ok" | "late": the fallback stream answers only after the deadline),
 \*            sendErr (the ping cannot even be handed to the transport: a local, non-remote error),
 \*            foreignAck / foreignNack (arrival of an ack / nack with
-\*            another sequence number), dupAck (the direct ack arrives twice), score0]
+\*            another sequence number), dupAck (the direct ack arrives twice), dupNack (every nack arrives
+\*            twice: a duplicate is not a second missing-nack credit), score0]
 
 InTime(t) == t # Never /\ t < PI
 
